@@ -353,7 +353,7 @@ def run_property(pid: str, tier: str, seed: int) -> int:
         print(f"{pid}: VIOLATED  {len(new_viols)} witness(es), {len(seen)} mechanism key(s); evals={evals}")
         return 1
     if inconclusive:
-        print(f"INCONCLUSIVE property={pid} reason={inconclusive[0][:600]}")
+        print(f"INCONCLUSIVE property={pid} reason={inconclusive[0][:120]} ... {inconclusive[0][-700:]}")
         return 2
     print(
         f"{pid}: held on {evals} evaluations ({distinct} distinct non-trivial) "
